@@ -9,6 +9,8 @@ from ..ref import bits, isa
 from ..ref import commb as rc
 
 LEVEL = "exploration"
+TECHNIQUE = 'runtime monitoring: relation monitor (infer vs isXX), forward register builders for completeness, one-rule-violation builders for soundness, independent recomputation of is50or60'
+LEVEL_TEXT = 'Exploration; out-of-envelope contents are deliberately not judged, thresholds are judged at their boundary values; 2^56 payloads sampled with boundary direction.'
 LEVEL_RULE = (
     "bds.infer(msg, mrar) / isXX / is50or60 called on 112-bit messages: (T0) totality on random frames of every DF and the "
     "recorded sample data; (T1) relation infer == EMPTY | DF17 type-code map | comma-joined sorted set of the isXX that hold; "
